@@ -1080,6 +1080,11 @@ def fuse_generators(fn: ast.AST) -> int:
     return count
 
 
+_OPERATOR_FUNCS = {"iadd": ("aug", ast.Add), "iconcat": ("aug", ast.Add), "add": ("bin", ast.Add), "concat": ("bin", ast.Add),
+                   "or_": ("bin", ast.BitOr), "ior": ("aug", ast.BitOr), "and_": ("bin", ast.BitAnd), "iand": ("aug", ast.BitAnd)}
+_BARE_OPERATORS = {"iadd", "iconcat", "concat", "ior", "iand"}  # names that are only plausible as `from operator import ...`
+
+
 def unreduce(fn: ast.AST) -> int:
     """``t = reduce(lambda acc, x: e, xs, init)`` -> ``acc = init; for x in xs: acc = e; t = acc``"""
     count = 0
@@ -1093,9 +1098,21 @@ def unreduce(fn: ast.AST) -> int:
                 continue
             c = st.value
             fnm = norm(c.func)
-            if fnm not in ("reduce", "functools.reduce") or len(c.args) != 3 or c.keywords:
+            if fnm not in ("reduce", "functools.reduce") or len(c.args) not in (2, 3) or c.keywords:
                 continue
-            if isinstance(c.args[0], (ast.Name, ast.Attribute)):
+            opname = norm(c.args[0]) if isinstance(c.args[0], (ast.Name, ast.Attribute)) else ""
+            opname = opname[len("operator."):] if opname.startswith("operator.") else (opname if opname in _BARE_OPERATORS else "")
+            if opname in _OPERATOR_FUNCS:
+                an, xn = "_h0_acc", "_h0_item"
+                k = 0
+                while an in taken or xn in taken:
+                    k += 1
+                    an, xn = f"_h0_acc{k}", f"_h0_item{k}"
+                taken |= {an, xn}
+                lam = ast.Lambda(args=ast.arguments(posonlyargs=[], args=[ast.arg(arg=an), ast.arg(arg=xn)], kwonlyargs=[], kw_defaults=[], defaults=[]),
+                                 body=ast.copy_location(ast.BinOp(left=ast.Name(id=an, ctx=ast.Load()), op=_OPERATOR_FUNCS[opname][1](),
+                                                                  right=ast.Name(id=xn, ctx=ast.Load())), c))
+            elif isinstance(c.args[0], (ast.Name, ast.Attribute)):
                 # reduce(f, xs, init) with a named function: as if written with `lambda acc, item: f(acc, item)`
                 an, xn = "_h0_acc", "_h0_item"
                 k = 0
@@ -1125,11 +1142,38 @@ def unreduce(fn: ast.AST) -> int:
                 sub[x] = ast.Name(id=xn, ctx=ast.Load())
                 x = xn
             body = _Subst(sub).visit(copy.deepcopy(lam.body)) if sub else copy.deepcopy(lam.body)
-            rep: List[ast.stmt] = [
-                ast.copy_location(ast.Assign(targets=[ast.Name(id=acc, ctx=ast.Store())], value=c.args[2]), st),
-                ast.copy_location(ast.For(target=ast.Name(id=x, ctx=ast.Store()), iter=c.args[1],
-                                          body=[ast.copy_location(ast.Assign(targets=[ast.Name(id=acc, ctx=ast.Store())], value=body), st)],
-                                          orelse=[]), st)]
+            step: ast.stmt = ast.copy_location(ast.Assign(targets=[ast.Name(id=acc, ctx=ast.Store())], value=body), st)
+            if opname in _OPERATOR_FUNCS and _OPERATOR_FUNCS[opname][0] == "aug":
+                # operator.iadd(acc, x) is `acc += x`: in place when the accumulator is a list
+                step = ast.copy_location(ast.AugAssign(target=ast.Name(id=acc, ctx=ast.Store()), op=_OPERATOR_FUNCS[opname][1](),
+                                                       value=ast.Name(id=x, ctx=ast.Load())), st)
+            xs = c.args[1]
+            pre: List[ast.stmt] = []
+            loop_target: ast.AST = ast.Name(id=x, ctx=ast.Store())
+            if isinstance(xs, (ast.GeneratorExp, ast.ListComp)) and len(xs.generators) == 1 and not xs.generators[0].ifs and not xs.generators[0].is_async \
+                    and not ({n_.id for n_ in ast.walk(xs.generators[0].target) if isinstance(n_, ast.Name)} & (taken - {acc, x})):
+                # reduce(f, (e for y in ys), ...): one loop over ys, the item computed first
+                pre = [ast.copy_location(ast.Assign(targets=[ast.Name(id=x, ctx=ast.Store())], value=xs.elt), st)]
+                loop_target = xs.generators[0].target
+                xs = xs.generators[0].iter
+            if len(c.args) == 3:
+                rep: List[ast.stmt] = [
+                    ast.copy_location(ast.Assign(targets=[ast.Name(id=acc, ctx=ast.Store())], value=c.args[2]), st),
+                    ast.copy_location(ast.For(target=loop_target, iter=xs, body=pre + [step], orelse=[]), st)]
+            else:
+                # no initial value: the first item is the accumulator itself (not a copy), an empty iterable is a TypeError
+                flag = f"_h0_first_{acc}"
+                taken.add(flag)
+                first = ast.copy_location(ast.If(test=ast.Name(id=flag, ctx=ast.Load()), body=[
+                    ast.copy_location(ast.Assign(targets=[ast.Name(id=acc, ctx=ast.Store())], value=ast.Name(id=x, ctx=ast.Load())), st),
+                    ast.copy_location(ast.Assign(targets=[ast.Name(id=flag, ctx=ast.Store())], value=ast.Constant(value=False)), st)],
+                    orelse=[step]), st)
+                rep = [ast.copy_location(ast.Assign(targets=[ast.Name(id=flag, ctx=ast.Store())], value=ast.Constant(value=True)), st),
+                       ast.copy_location(ast.For(target=loop_target, iter=xs, body=pre + [first], orelse=[]), st),
+                       ast.copy_location(ast.If(test=ast.Name(id=flag, ctx=ast.Load()), body=[ast.copy_location(ast.Raise(
+                           exc=ast.Call(func=ast.Name(id="TypeError", ctx=ast.Load()),
+                                        args=[ast.Constant(value="reduce() of empty iterable with no initial value")], keywords=[]), cause=None), st)],
+                           orelse=[]), st)]
             if isinstance(st, ast.Assign):
                 if not (len(st.targets) == 1 and isinstance(st.targets[0], ast.Name) and st.targets[0].id == acc):
                     rep.append(ast.copy_location(ast.Assign(targets=st.targets, value=ast.Name(id=acc, ctx=ast.Load())), st))
